@@ -22,11 +22,12 @@ var (
 	srcV4b    = sim.UDP4(5, 5, 5, 5, 5999) // same IP, other port
 	srcV6     = &net.UDPAddr{IP: net.ParseIP("2001:db8::5"), Port: 5555}
 	srcMapped = &net.UDPAddr{IP: net.IP{5, 5, 5, 5}.To16(), Port: 5556} // 16-byte form of srcV4's IP (its String() equals the 4-byte form's, hence another port)
+	srcZone   = &net.UDPAddr{IP: net.ParseIP("fe80::1234"), Port: 5557, Zone: "eth1"} // zoned link-local source
 	srcOther  = sim.UDP4(6, 6, 6, 6, 5555)
 	srcProbe  = sim.UDP4(7, 7, 7, 7, 7777)
 )
 
-var sources = map[string]*net.UDPAddr{"v4": srcV4, "v4b": srcV4b, "v6": srcV6, "mapped": srcMapped, "other": srcOther, "probe": srcProbe}
+var sources = map[string]*net.UDPAddr{"v4": srcV4, "v4b": srcV4b, "v6": srcV6, "mapped": srcMapped, "v6zone": srcZone, "other": srcOther, "probe": srcProbe}
 
 var (
 	peerID  = sim.InBucket(sim.Root, 2, 9)
